@@ -21,13 +21,22 @@ structure LineChildren where
   descendantCount : Nat
   deriving Repr, Inhabited
 
+/-- what the search reads of a live token: its type and its text (never its counters, its leading whitespace or
+    its ignored flag) -/
+structure SVTok where
+  kind : Kind
+  content : Bytes
+  deriving Repr, DecidableEq
+
+def FTok.sview (t : FTok) : SVTok := { kind := t.tok.kind, content := t.tok.content }
+
 /-- `InternalOptimisingLineFormatter` without the `child_line_cache` (which is threaded through the search as a state):
     `settings` and `recon_settings` come from `cfg`; `formattedTokens` is the live token state -/
 structure Olf where
   cfg : Config
   reconSettings : Settings
   iterationMax : Nat
-  formattedTokens : Array FTok
+  formattedTokens : Array SVTok
   lines : Array LineA
   lineChildren : Std.HashMap (Nat × Nat) LineChildren
   tokenTypes : Array TokenType
@@ -39,7 +48,7 @@ structure Olf where
 /-- `get_token_type` / `FormattedTokens::get_token_type_for_index` -/
 @[inline] def Olf.getTokenType (O : Olf) (tokenIndex : Nat) : Option TokenType :=
   match O.formattedTokens[tokenIndex]? with
-  | some t => some t.tok.kind
+  | some t => some t.kind
   | none => none
 
 /-- `get_token_type_for_line_index` -/
